@@ -441,11 +441,16 @@ class World:
             mv = build_move(entry["move"], self.env, mname)
             self.env.named[mname] = mv
             crit = None
-            if entry.get("criteria") == "bare" or entry["move"]["type"] == "bare":
+            cname = entry.get("criteria")
+            if cname == "bare" or (cname is None and entry["move"]["type"] == "bare"):
                 log = []
                 crit = BareCriteria(entry.get("verdicts", [True]), log)
                 self.bare_logs[mname + "#criteria"] = log
                 self.bare_objs[mname + "#criteria"] = crit
+            elif cname is not None:
+                import quansino.mc.criteria as qc
+
+                crit = getattr(qc, cname + "Criteria")()
             try:
                 mc.add_move(mv, criteria=crit, name=mname, interval=entry.get("interval", 1),
                             probability=entry.get("probability", 1.0),
@@ -585,10 +590,67 @@ class World:
             self.result.foreign.append({k: info[k] for k in ("type", "where", "owner", "phase")})
             self.result.count("foreign_exception")
 
+    @staticmethod
+    def leaves_of(move):
+        out = []
+        seen = set()
+
+        def walk(m):
+            if id(m) in seen:
+                return
+            seen.add(id(m))
+            subs = getattr(m, "moves", None)
+            if isinstance(subs, list):
+                for x in subs:
+                    walk(x)
+            else:
+                out.append(m)
+
+        walk(move)
+        return out
+
+    def _apply_tapes(self, name):
+        t = str(self.trial + self.trial_offset)
+        mc = self.mc
+        ch = self.sc.get("param_tape", {}).get(t)
+        if ch:
+            for k, v in ch.items():
+                if hasattr(type(mc), k):
+                    setattr(mc, k, v)
+                    self.result.count("fault.param_change")
+        pre = self.sc.get("preselect", {}).get(t)
+        if pre and name in self.mc.moves:
+            from quansino.moves.displacement import DisplacementMove
+            from quansino.moves.exchange import ExchangeMove
+
+            leaves = self.leaves_of(self.mc.moves[name].move)
+            what = pre["what"]
+            for lf in leaves:
+                if what == "displace" and type(lf) is DisplacementMove and len(lf.unique_labels):
+                    lf.to_displace_labels = int(lf.unique_labels[int(pre["pick"] * len(lf.unique_labels))])
+                    self.result.count("fault.preselect_displace")
+                    break
+                if what == "add" and isinstance(lf, ExchangeMove) and hasattr(self, "template"):
+                    lf.to_add_atoms = self.template.copy()
+                    self.result.count("fault.preselect_add")
+                    break
+                if what == "delete" and isinstance(lf, ExchangeMove) and len(lf.unique_labels):
+                    lf.to_delete_label = int(lf.unique_labels[int(pre["pick"] * len(lf.unique_labels))])
+                    self.result.count("fault.preselect_delete")
+                    break
+
     def move_kind(self, name: str) -> str:
         for i, entry in enumerate(self.sc["moves"]):
             if entry.get("name", f"m{i}") == name:
                 return spec_kind(entry["move"], self.sc)
+        return "?"
+
+    def move_cat(self, name) -> str:
+        if name is None:
+            return "-"
+        for i, entry in enumerate(self.sc["moves"]):
+            if entry.get("name", f"m{i}") == name:
+                return spec_cat(entry["move"], self.sc)
         return "?"
 
     def _run_segment(self, seg):
@@ -635,6 +697,7 @@ class World:
             self.momenta_events = []
             for sink in self.op_sinks.values():
                 sink.clear()
+            self._apply_tapes(name)
             for m in self.monitors:
                 m.before_trial(self, name)
             pre = self.snapshot()
@@ -658,7 +721,9 @@ class World:
             if len(mc.move_history) != nhist + 1:
                 verdict = "missing"
             else:
-                hname, verdict = mc.move_history[-1]
+                hname, raw = mc.move_history[-1]
+                self.raw_verdict = raw
+                verdict = None if raw is None else bool(raw)
             self.result.count("trials")
             self.result.count(f"verdict.{verdict}")
             self.digest.add("trial", self.trial, name, repr(verdict), post["positions"], post["cellarr"],
@@ -685,6 +750,25 @@ def spec_kind(mspec: dict, sc: dict | None = None) -> str:
         return f"{t}:{op_kind(mspec['op'])}"
     if t == "cell":
         return f"cell:{op_kind(mspec['op']) if mspec.get('op') else 'default'}"
+    return t
+
+
+def spec_cat(mspec: dict, sc: dict | None = None) -> str:
+    """Coarse category used in signatures: disp, exch, cell, hmc, bare,
+    composite_disp / composite_exch / composite_cell / composite_mixed."""
+    t = mspec["type"]
+    if t == "ref" and sc is not None:
+        for i, e in enumerate(sc["moves"]):
+            if e.get("name", f"m{i}") == mspec["of"]:
+                return spec_cat(e["move"], sc)
+        return "ref"
+    if t in ("sum", "mul"):
+        items = mspec["items"] if t == "sum" else [mspec["item"]]
+        cats = set()
+        for it in items:
+            c = spec_cat(it, sc)
+            cats.add(c[len("composite_"):] if c.startswith("composite_") else c)
+        return "composite_" + (cats.pop() if len(cats) == 1 else "mixed")
     return t
 
 
@@ -717,7 +801,8 @@ class Monitor:
         """Return True if this monitor claims the escaped exception as a violation."""
         if info["owner"] == self.prop:
             self.violate(w, "exception", f"type={info['type']}|where={info['where']}|driver={w.sc['driver']}"
-                         f"|move={w.move_kind(info['move']) if info['move'] else '-'}", info["text"])
+                         f"|move={w.move_cat(info['move'])}",
+                         f"during a {w.move_kind(info['move']) if info['move'] else '-'} trial:\n" + info["text"])
             return True
         return False
 
@@ -808,6 +893,9 @@ class FBWorld:
             m.on_build(self)
 
     def move_kind(self, name):
+        return "fbstep"
+
+    def move_cat(self, name):
         return "fbstep"
 
     def run(self) -> RunResult:
